@@ -251,8 +251,56 @@ func freshCopyFromHelper(pc *ssa.Function, v ssa.Value, h *types.Var) bool {
 		return false
 	}
 	cal := call.Call.StaticCallee()
-	if cal == nil || len(cal.Blocks) == 0 || cal.Signature.Recv() == nil || len(call.Call.Args) == 0 {
+	if cal == nil || len(cal.Blocks) == 0 || len(call.Call.Args) == 0 {
 		return false
+	}
+	if cal.Signature.Recv() == nil {
+		// a set-copying function of the package handed the receiver's field: every return is a
+		// map made there into which the keys of the parameter are copied by a range loop
+		pi := -1
+		for i, a := range call.Call.Args {
+			if recvFieldLoad(pc, a, h) {
+				pi = i
+			}
+		}
+		if pi < 0 || pi >= len(cal.Params) || !inModule(cal) {
+			return false
+		}
+		n := 0
+		for _, b := range cal.Blocks {
+			ret, ok := b.Instrs[len(b.Instrs)-1].(*ssa.Return)
+			if !ok {
+				continue
+			}
+			n++
+			if idx >= len(ret.Results) {
+				return false
+			}
+			mm, ok := lookThrough(ret.Results[idx]).(*ssa.MakeMap)
+			if !ok {
+				return false
+			}
+			copied := false
+			for _, b2 := range cal.Blocks {
+				for _, ins := range b2.Instrs {
+					mu, ok := ins.(*ssa.MapUpdate)
+					if !ok || mu.Map != ssa.Value(mm) {
+						continue
+					}
+					if ex, ok := mu.Key.(*ssa.Extract); ok {
+						if nx, ok := ex.Tuple.(*ssa.Next); ok {
+							if rg, ok := nx.Iter.(*ssa.Range); ok && rg.X == ssa.Value(cal.Params[pi]) {
+								copied = true
+							}
+						}
+					}
+				}
+			}
+			if !copied {
+				return false
+			}
+		}
+		return n > 0
 	}
 	if a := call.Call.Args[0]; a != ssa.Value(pc.Params[0]) && !isSpillOf(a, pc.Params[0]) {
 		return false
